@@ -4,5 +4,12 @@ set -e
 HERE="$(cd "$(dirname "$0")" && pwd)"
 cd "$HERE"
 python3 translator/gen.py
-(cd lean && lake build)
-PYTHONPATH="${VERIF_REPO:-/repo}" /venv/bin/python -c "import sigpyproc.readers, sigpyproc.core.kernels" || true
+cd lean
+TARGETS="SppModel"
+for f in SppModel/Props/*.lean; do
+  m=$(basename "$f" .lean)
+  TARGETS="$TARGETS SppModel.Props.$m"
+done
+lake build $TARGETS
+cd ..
+PYTHONPATH="${VERIF_REPO:-/repo}" NUMBA_DISABLE_PERFORMANCE_WARNINGS=1 /venv/bin/python -c "import sigpyproc.readers, sigpyproc.core.kernels" || true
